@@ -71,6 +71,48 @@ let itrace_of (impl : string) : itr list * string * z =
       (evs, !ending, !fin)
   | _ -> failwith "bad ileave trace"
 
+
+(* ---- interleavings on pipelines of thread-safe operators (ileave2.rs): judged for safety, and tied to
+   the sequential models by linearizability ---- *)
+let rec merges (ls : 'a list list) : 'a list list =
+  let ls = List.filter (fun l -> l <> []) ls in
+  if ls = [] then [[]] else
+  List.concat (List.mapi (fun i l ->
+      match l with
+      | x :: r -> List.map (fun m -> x :: m) (merges (List.mapi (fun k l' -> if k = i then r else l') ls))
+      | [] -> []) ls)
+
+type i2ev = I2Ev of ev * int * int | I2Ov | I2Un of int * int | I2Call of int * int | I2Panic
+
+let i2trace_of (impl : string) : i2ev list * string =
+  match parse ("(" ^ impl ^ ")") with
+  | List l ->
+      let ending = ref "none" in
+      let evs = List.filter_map (fun x -> match x with
+          | List [Atom "v"; e; t; j] -> Some (I2Ev (ev_of e, int_of t, int_of j))
+          | List [Atom "ov"; _] -> Some I2Ov
+          | List [Atom "u"; t; j] -> Some (I2Un (int_of t, int_of j))
+          | List [Atom "call"; t; j] -> Some (I2Call (int_of t, int_of j))
+          | List [Atom "panic"; _] -> Some I2Panic
+          | Atom w -> ending := w; None
+          | _ -> failwith "bad ileave2 trace") l in
+      (evs, !ending)
+  | _ -> failwith "bad ileave2 trace"
+
+(* what the sequential model delivers for one merged sequence of operations *)
+let i2_sequential (pipe : sexp) (ops : sexp list) : ev list =
+  match head pipe with
+  | "op2" ->
+      let o = op2_of (List.hd (args pipe)) in
+      let rec upto = function [] -> [] | x :: r -> (match head x with "u" -> [] | _ -> x :: upto r) in
+      let side_ev s = ((match head s with "a" -> A | "b" -> B | _ -> failwith "bad side"), ev_of (List.hd (args s))) in
+      run_op2 o (List.map side_ev (upto ops))
+  | "flat" ->
+      let lim = (match List.hd (args pipe) with Atom "inf" -> None | n -> Some (narg n)) in
+      List.filter_map (function FItem (_, v) -> Some (Next v) | FTerm e -> Some e | _ -> None)
+        (run_flatten lim (List.map fstim_of ops))
+  | _ -> failwith "no sequential model"
+
 let rec run_case (kind : string) (body : sexp list) : string * string =
   match kind with
   | "chain" ->
@@ -175,6 +217,7 @@ let rec run_case (kind : string) (body : sexp list) : string * string =
         else sts in
       let connected = (match atom (List.nth body 1) with "never" | "dead" -> false | _ -> true) in
       (show_segs (run_finalize_segs_from connected sh sts), "UNSPECIFIED")
+  | "ileave2" -> ("-", "UNSPECIFIED")
   | "ileave" ->
       let (v0, setup, scripts, sched) = ileave_parts body in
       let ((tr, e), fin) = Model.run_case v0 setup scripts sched in
@@ -477,6 +520,69 @@ let oracle (kind : string) (body : sexp list) (impl : string) : string option =
       else if not (joiner_ok v0 setup scripts tr e) then
         Some "known:behavior-race a subscriber joining a thread-safe BehaviorSubject while others emit was handed a stale value or missed a later item"
       else Some "ok"
+  | "ileave2" ->
+      if impl = "-" then Some "ok" else
+      let pipe = List.nth body 0 in
+      let scripts = List.map (fun s -> match s with List l -> l | Atom _ -> failwith "bad script") (args (List.nth body 1)) in
+      let (tr, ending) = i2trace_of impl in
+      let delivered = List.filter_map (function I2Ev (e, _, _) -> Some e | _ -> None) tr in
+      let rec quiet gone = function
+        | [] -> true
+        | I2Un _ :: r -> quiet true r
+        | I2Ev _ :: r -> not gone && quiet gone r
+        | _ :: r -> quiet gone r in
+      let op_of t j = (match List.nth_opt scripts t with Some l -> List.nth_opt l j | None -> None) in
+      let is_term_op o = (match o with Some (List [Atom "a"; Atom "c"]) | Some (List [Atom "a"; List [Atom "e"; _]]) -> true | _ -> false) in
+      if List.mem I2Panic tr then Some "reject:C10 a thread panicked"
+      else if ending = "hang" then Some "reject:C10 a call did not return (a thread blocked outside the gates)"
+      else if ending = "deadlock" then Some "reject:C10 deadlock: every unfinished thread waits for a mutex another one holds"
+      else if ending <> "fin" then Some "reject:the schedule ended before the threads did"
+      else if List.mem I2Ov tr then Some "reject:C10 the subscriber's callback ran on two threads at once"
+      else if not (wf delivered) then Some "reject:C01 a notification after the terminal, or a second terminal"
+      else if not (quiet false tr) then Some "reject:C02 the subscriber was called after unsubscribe() had returned"
+      else if head pipe = "fin" then begin
+        (* C15: the callback at most once; once when a terminal was delivered or unsubscribe() returned; run by the
+           operation that delivered the terminal (after delivering it) or by the unsubscription *)
+        let calls = List.filter_map (function I2Call (t, j) -> Some (t, j) | _ -> None) tr in
+        let triggered = List.exists (function I2Un _ -> true | I2Ev (e, _, _) -> (match e with Next _ -> false | _ -> true) | _ -> false) tr in
+        let rec pos x i = function [] -> -1 | y :: r -> if y = x then i else pos x (i + 1) r in
+        (match calls with
+         | [] -> if triggered then Some "reject:C15 the finalize callback never ran although the subscription was terminated or unsubscribed" else Some "ok"
+         | [(t, j)] ->
+             let o = op_of t j in
+             if o = Some (Atom "u") then Some "ok"
+             else if is_term_op o then
+               (let pc = pos (I2Call (t, j)) 0 tr in
+                let delivered_before = List.exists (fun x -> match x with I2Ev (e, t', j') when t' = t && j' = j && (match e with Next _ -> false | _ -> true) -> pos x 0 tr < pc | _ -> false) tr in
+                if delivered_before then Some "ok" else Some "reject:C15 the finalize callback ran before the terminal it follows was delivered")
+             else Some "reject:C15 the finalize callback ran from an operation that neither terminates nor unsubscribes"
+         | _ -> Some "reject:C15 the finalize callback ran more than once")
+      end
+      else if head pipe = "flat" then begin
+        (* C05 under concurrency: every inner observable's items at most once and in its own order (a synchronous
+           inner observable's items may be interleaved with another thread's, so whole operations are not atomic
+           and there is no sequential run to compare with) *)
+        let sources = List.concat (List.map (fun sc ->
+            let hot = Hashtbl.create 4 in
+            let cold = ref [] in
+            List.iter (fun o -> match o with
+                | List [Atom "i"; k; List [Atom "n"; v]] ->
+                    let k = int_of k in Hashtbl.replace hot k ((try Hashtbl.find hot k with Not_found -> []) @ [val_of v])
+                | List [Atom "o"; List (Atom "coldi" :: evs)] ->
+                    cold := List.filter_map (function List [Atom "n"; v] -> Some (val_of v) | _ -> None) evs :: !cold
+                | _ -> ()) sc;
+            Hashtbl.fold (fun _ l acc -> l :: acc) hot [] @ !cold) scripts) in
+        let items = List.filter_map (function Next v -> Some v | _ -> None) delivered in
+        let rec subseq a b = (match a, b with
+            | [], _ -> true | _, [] -> false
+            | x :: a', y :: b' -> if x = y then subseq a' b' else subseq a b') in
+        let known = List.concat sources in
+        if List.exists (fun v -> not (List.mem v known)) items then Some "reject:C05 an item no inner observable emitted"
+        else if List.for_all (fun src -> subseq (List.filter (fun v -> List.mem v src) items) src) sources then Some "ok"
+        else Some "reject:C05 an inner observable's item delivered twice or out of its order"
+      end
+      else if List.exists (fun m -> i2_sequential pipe m = delivered) (merges scripts) then Some "ok"
+      else Some "nocorr:the delivered sequence is not what the sequential model gives for any merge of the threads' operations"
   | "tree" ->
       if String.length impl >= 5 && String.sub impl 0 5 = "PANIC" then Some "reject:panic" else
       let t = (match parse ("(" ^ impl ^ ")") with List l -> List.map ev_of l | _ -> []) in
